@@ -28,6 +28,8 @@ var domainSetDefs = map[string][]string{
 	"dsKw":     {"keyword:xample.c"},
 	"dsRe":     {`regexp:^(www\.)?example\.com$`},
 	"dsBig":    bigDomainSet(),
+	// suffix rules only (trie matcher), a longer suffix first and then the shorter one that covers it
+	"dsOverlap": {"suffix:zone0.test", "suffix:zone1.test", "suffix:zone2.test", "suffix:www.example.com", "suffix:example.com"},
 }
 
 // bigDomainSet has 20 domain rules (> MaxLinearDomains) and 6 suffix rules
@@ -38,10 +40,11 @@ func bigDomainSet() []string {
 		l = append(l, fmt.Sprintf("domain:host%d.test", i))
 	}
 	l = append(l, "domain:example.com")
-	for i := 0; i < 5; i++ {
+	for i := 0; i < 4; i++ {
 		l = append(l, fmt.Sprintf("suffix:zone%d.test", i))
 	}
-	l = append(l, "suffix:example.com")
+	// a longer suffix first, then the shorter one that covers it (the trie must replace the longer branch)
+	l = append(l, "suffix:www.example.com", "suffix:example.com")
 	return l
 }
 
